@@ -222,6 +222,35 @@ def _global_seed(seed=None):
     return _ORIG['seed'](seed)
 
 
+_SAVED_STATES = {}
+
+
+def _state_key(state):
+    try:
+        return (state[0], np.asarray(state[1]).tobytes(), int(state[2]))
+    except Exception:
+        return None
+
+
+def _global_get_state(*a, **kw):
+    st = _ORIG['get_state'](*a, **kw)
+    if _REC[0] is not None:
+        k = _state_key(st)
+        if k is not None:
+            _SAVED_STATES[k] = (_G.seeded, _G.pos)
+    return st
+
+
+def _global_set_state(state):
+    """restoring a saved state REWINDS the global stream to where it was saved: the positions after it are drawn again"""
+    rec = _REC[0]
+    if rec is not None:
+        seeded, pos = _SAVED_STATES.get(_state_key(state), (None, 0))
+        rec.emit('GlobalRestore', seed=seeded, pos=pos)
+        _G.seeded, _G.pos = seeded, pos
+    return _ORIG['set_state'](state)
+
+
 def _global_fn(name):
     orig = getattr(np.random, name)
 
@@ -282,6 +311,9 @@ def recording(chi, script=None):
     saved_tn = pm.truncnorm
     np.random.default_rng = _default_rng
     np.random.seed = _global_seed
+    _ORIG['get_state'], _ORIG['set_state'] = np.random.get_state, np.random.set_state
+    np.random.get_state, np.random.set_state = _global_get_state, _global_set_state
+    _SAVED_STATES.clear()
     for n in saved:
         setattr(np.random, n, _global_fn(n))
     pm.truncnorm = _TruncnormProxy(saved_tn)
@@ -293,6 +325,7 @@ def recording(chi, script=None):
         _REC[0] = None
         np.random.default_rng = _ORIG['default_rng']
         np.random.seed = _ORIG['seed']
+        np.random.get_state, np.random.set_state = _ORIG['get_state'], _ORIG['set_state']
         for n, f in saved.items():
             setattr(np.random, n, f)
         pm.truncnorm = saved_tn
